@@ -1,3 +1,6 @@
 import CfdpVerif.Model.Tracker
+import CfdpVerif.Model.Checksum
 import CfdpVerif.Lemmas.Tracker
+import CfdpVerif.Lemmas.Checksum
 import CfdpVerif.Props.C18
+import CfdpVerif.Props.C09
